@@ -1784,7 +1784,7 @@ func runC19(c *ctx) {
 		// (3a) the other entry points of the platform constructor: NewPlatformVariant (the variant
 		// replaces what it sets, the options block stays the default's) and a definition read from a
 		// file path instead of bytes
-		for i := 0; i < c.n(700, 40000); i++ {
+		for i := 0; i < c.n(700, 20000); i++ {
 			mk := func(dt string, full bool) *c19Plat {
 				p := &c19Plat{driverType: dt}
 				if full || r.Chance(1, 2) {
